@@ -7,7 +7,7 @@
 (* Readers (rules H1-H5): documented codes; END_INPUT only with all given input consumed; after overflow   *)
 (* the call is repeated with a larger buffer; on OK the fields equal the spec's parse of the bytes and the *)
 (* position is the first byte after the header; no fault.                                                  *)
-EXTENDS Wrappers, Json, IOUtils
+EXTENDS Wrappers, HeaderIOOps, Json, IOUtils
 In == ndJsonDeserialize(IOEnv.VERIF_IN)      \* scenario inputs (field values / header bytes), keyed by id
 Rec == ndJsonDeserialize(IOEnv.VERIF_TRACE)  \* what the real code did
 ById == [i \in 1..Len(In) |-> In[i]]
@@ -38,6 +38,22 @@ JudgeWriter(r) ==
                         ELSE IF p.fields.info # s.info \/ p.fields.level # s.level \/ p.fields.dict_flag # (s.dict_flag = 1) THEN {"W2-zlib-header-fields-differ"}
                         ELSE IF s.dict_flag = 1 /\ p.fields.dict_id # s.dict_id THEN {"W2-zlib-DICTID-not-most-significant-byte-first"} ELSE {}))
 
+(* M3 (conformance with the reader state machine HeaderIOOps): every recorded reader call must be a step the model allows from the resume state it
+   was entered in (reported as drift, not as a violation).  step = <<ret, avail_in, consumed, faulted, state before, state after, wrapper_flag>> *)
+CodeName(c) == CASE c = 0 -> "OK" [] c = 1 -> "END_INPUT" [] c = 3 -> "NAME_OVERFLOW" [] c = 4 -> "COMMENT_OVERFLOW" [] c = 5 -> "EXTRA_OVERFLOW"
+                 [] c = -4 -> "INVALID_WRAPPER" [] c = -5 -> "UNSUPPORTED_METHOD" [] c = -6 -> "INCORRECT_CHECKSUM" [] OTHER -> "?"
+StepInModel(kind, st) ==
+  LET k == IF kind = 0 THEN "gzip" ELSE "zlib"
+      ord == HOrder(k)
+  IN IF Len(st) < 7 \/ st[4] = 1 THEN TRUE
+     ELSE IF st[5] \notin {ord[i] : i \in 1..Len(ord)} THEN FALSE
+     ELSE LET res == HReadResults(k, st[5], IF st[2] > 0 THEN 1 ELSE 0)
+              obs == [ret |-> CodeName(st[1]), bs |-> st[6], wf |-> st[7] = 1, left |-> IF st[2] - st[3] > 0 THEN 1 ELSE 0]
+          IN IF st[1] < 0 THEN \E r \in res : r.ret = obs.ret            \* after an error only the code is compared
+             ELSE obs \in res
+Drift(r) == IF r.t # "read" THEN 0 ELSE Cardinality({i \in 1..Len(r.steps) : ~StepInModel(r.kind, r.steps[i])})
+StepKeys(r) == IF r.t # "read" THEN {} ELSE {<<r.kind, r.steps[i][5], IF r.steps[i][2] > 0 THEN 1 ELSE 0, r.steps[i][1], r.steps[i][6]>> : i \in {i \in 1..Len(r.steps) : Len(r.steps[i]) >= 7}}
+
 Documented(kind) == IF kind = 0 THEN {0, 1, 3, 4, 5, -4, -5, -6} ELSE {0, 1, -4, -5, -6}
 JudgeReader(r) ==
   LET s == Find(r.id)
@@ -67,7 +83,7 @@ JudgeReader(r) ==
         ELSE (IF r.ret = 0 /\ ~(IF "lenient" \in DOMAIN p THEN p.lenient ELSE FALSE) THEN {"H4-malformed-header-accepted-" \o p.st} ELSE {})
   IN v1 \cup v2 \cup v2b \cup v5 \cup final
 
-Judge(r) == [t |-> r.t, id |-> r.id, viol |-> SetToSeq(IF r.t = "read" THEN JudgeReader(r) ELSE JudgeWriter(r))]
+Judge(r) == [t |-> r.t, id |-> r.id, viol |-> SetToSeq(IF r.t = "read" THEN JudgeReader(r) ELSE JudgeWriter(r)), drift |-> Drift(r), keys |-> SetToSeq(StepKeys(r))]
 Out == [i \in 1..Len(Rec) |-> Judge(Rec[i])]
 ASSUME ndJsonSerialize(IOEnv.VERIF_OUT, Out)
 =============================================================================
